@@ -11,7 +11,7 @@ func init() {
 		ID: "C08",
 		Decides: "(R08.1) every site in isaacstates that signs a ballot sign fact with the local key is reached only through the not-found edge of a ballot-pool lookup for the same stage and suffrage-confirm flag, whose found edge hands out the stored ballot (consensus handlers directly; the mimic path through mimicBallotFunc -> mimicBallot -> signMimicBallot -> mimicBallot); " +
 			"(R08.2) the broadcaster stores a local ballot before broadcasting, consults the pool's first-writer-wins answer, and on `already stored` broadcasts the ballot loaded from the pool for that same stage point; what is broadcast is exactly what set() returned; " +
-			"(R08.4) ballot sign facts are signed with the local key only at the tabled sites; (R08.5) the ballot pool's cleanup depth is a positive constant, so the stored local ballot of the current height — what every lookup-before-sign relies on — is not purged.",
+			"(R08.4) ballot sign facts are signed with the local key only at the tabled sites; (R08.5) the ballot pool's cleanup depth is a positive constant, so the stored local ballot of the current height — what every lookup-before-sign relies on — is not purged.; (R08.6) the mimic path votes with the ballot the broadcaster settled on and (R08.7) the ballot cleaner's reference is not the highest stored ballot — both violated today, known findings",
 		NotDecided: "atomicity of the pool's own exists-then-put (C24); that the pool lookup key and the ballot's stage point coincide for all inputs (C24 R24.2); ballots signed by launch/dev commands outside isaacstates.",
 		Run:        runC08,
 	})
@@ -96,9 +96,23 @@ func runC08(c *Ctx) {
 			b := c.CallsD(cl, "st.args.BallotBroadcaster.Broadcast(*)")
 			c.ArgIs(cl, "mimic path broadcasts the stored or the freshly mimicked ballot", b, 2, 0, lookup+"#0", "call(st.mimicBallot())(bl)#0")
 		}
-		if cl := c.ClosureWithCall(parent, "*.Ballotbox.Vote(*)"); cl != nil {
-			_ = cl
+		// R08.6: what the local node votes with (its own ballotbox hands it on in voteproofs and answers
+		// missing-ballot requests with it) is the ballot the broadcaster settled on, not the freshly signed
+		// one: only the broadcaster arbitrates two racing mimics of one stage point
+		c.Rule("R08.6", "Dependence")
+		n := 0
+		for _, f := range WithClosures(parent) {
+			for _, v := range c.CallsD(f, "call(var:votef)(*)") {
+				n++
+				d := c.D(CallArg(v, 0))
+				fresh := strings.Contains(d, "call(st.mimicBallot())(bl)#0")
+				settled := allOK(c.MustPass(f, nil, []ssa.Instruction{v}, GCalled("st.args.BallotBroadcaster.Broadcast(*)")))
+				c.Report(f, "the mimic path votes with the ballot the broadcaster settled on", c.InstrPos(v), !fresh || settled,
+					"votes with "+d+" in its own goroutine, before and independently of Broadcast, which may substitute the pool's ballot")
+			}
 		}
+		c.Floor(parent, "local votes of the mimic path", n, 1)
+		c.Rule("R08.1", "MustPass")
 	}
 	if fn := c.Need("isaac/states.(*States).signMimicBallot"); fn != nil {
 		calls := c.CallsTo(fn, "isaac/states.mimicBallot")
@@ -107,6 +121,24 @@ func runC08(c *Ctx) {
 	}
 	// R08.5: the pool does not purge the current height's local ballot (positive clean depth)
 	poolCleanDepthRules(c, "R08.5")
+	// R08.7: the pool row is the only memory of "already signed for this stage point": it must not be cleaned
+	// while ballots of that point are still accepted — the cleaner's reference height must not be the
+	// highest ballot stored (a mimicked ballot of a far height raises it)
+	c.Rule("R08.7", "Dependence")
+	if cl := c.Need("isaac/database.(*TempPool).cleanByHeight"); cl != nil {
+		tableRelative := false
+		for _, f := range WithClosures(cl) {
+			for _, st := range c.StoresD(f, "&var:top") {
+				if c.DependsOnD(st.(*ssa.Store).Val, "isaacdatabase.heightFromKey(*)#0") {
+					tableRelative = true
+				}
+			}
+		}
+		if cb := c.Need("isaac/database.(*TempPool).cleanBallots"); cb != nil {
+			c.Report(cb, "the ballot cleaner measures age from the node's own progress, not from the highest ballot stored", cb.Pos(), !tableRelative,
+				"cleanByHeight takes its reference from the table's own top: one stored ballot of a far height lets the cleaner delete the local ballot of a stage point still voted on")
+		}
+	}
 	// R08.2 ----------------------------------------------------------------------------------------
 	c.Rule("R08.2", "MustPass")
 	if fn := c.Need("isaac/states.(*DefaultBallotBroadcaster).Broadcast"); fn != nil {
